@@ -8,7 +8,7 @@
    Addresses are ppci's signed i32 operands; the theorems need 0 <= s (addresses below 2^31):
    the other half is the refuted row.  Float loads/stores (struct 'f'/'d') are NOT modelled. *)
 From PV Require Import Lib.Py Spec.BitsSpec Spec.WasmNumSpec Spec.WasmMemSpec Model.WasmMem.
-From PV Require Import Proofs.C22_base Proofs.C22_mem Proofs.C22_mem_fixed.
+From PV Require Import Proofs.C22_base Proofs.C22_mem Proofs.C22_mem_fixed Proofs.C22_grow_fixed.
 Open Scope Z_scope.
 
 (* iN.loadM_sx, M < N: little-endian, sign/zero extension, result in ppci's signed representation *)
@@ -116,6 +116,17 @@ Theorem c22_store_out_of_bounds_raises_fixed : forall m size N s off v, wf m -> 
   wasm_store_u m size N s off v = Internal AssertionError.
 Proof. exact store_oob_u. Qed.
 Print Assumptions c22_store_out_of_bounds_raises_fixed.
+
+(* ---- the repaired memory.grow instruction of fixes/C22-memory-grow-unsigned.diff (operand masked to 32 bits in
+   ModuleInstance.memory_grow; [mem_grow_instr true]): equals the spec for EVERY i32 operand.  The check probes
+   memory.grow(-1) on the real target and runs the correspondence against the live variant. *)
+Theorem c22_memory_grow_spec_fixed : forall m pages n, wf m -> paged m pages -> maxp m <= 65536 -> in_s 32 n ->
+  exists m', mem_grow_instr true m n = Ok (fst (mem_grow pages (Some (maxp m)) n), m') /\
+    paged m' (snd (mem_grow pages (Some (maxp m)) n)) /\
+    wasm_mem m' = wasm_mem m ++ repeat 0 (Z.to_nat ((snd (mem_grow pages (Some (maxp m)) n) - pages) * PAGE)) /\
+    mem0 m' = mem0 m /\ maxp m' = maxp m /\ wf m'.
+Proof. exact grow_spec_masked. Qed.
+Print Assumptions c22_memory_grow_spec_fixed.
 
 (* hypotheses are inhabited *)
 Example c22_mem_nonvacuous :
